@@ -308,6 +308,12 @@ class S:
     def cos(self):
         return ctx().trig(self, "cos")
 
+    def deg2rad(self):
+        return self * (math.pi / 180.0)
+
+    def rad2deg(self):
+        return self * (180.0 / math.pi)
+
     def sinh(self):
         return ctx().fn1("sinh", self)
 
@@ -323,6 +329,12 @@ class S:
         if self.is_const and self.is_real:
             return S(Fraction(math.ceil(self.re)))
         return -((-self).floor())
+
+    def __floor__(self):
+        return self.floor()
+
+    def __ceil__(self):
+        return self.ceil()
 
     def rint(self):
         if self.is_const and self.is_real:
